@@ -198,3 +198,18 @@ PROPS['C08'] = dict(
     level_note='Trusted: Coq kernel, extraction (ExtrOcamlBasic), harness and generators. Oracles: hash functions (Python hashlib), base32/base64 decoders, mime.WordDecoder, net/http header parsing, whatwg-url, net.ParseIP, time.Parse, Unicode case mapping; klauspost gzip (a member is its payload; a cut member yields a payload prefix then io.ErrUnexpectedEOF). bufio.Reader is remaining bytes + a persistent tail condition. Findings are compared by coarse kind derived from error texts. ',
     assumptions=[],
 )
+
+PROPS['C04'] = dict(
+    id='C04', domains=['writer', 'unm'],
+    n=dict(quick=dict(writer=500, unm=1500), thorough=dict(writer=30000, unm=60000)),
+    theorems=[('Properties.C04', [])],
+    kinds={'panic', 'wrong-position', 'eof-offset', 'unreadable-file', 'reopen-mismatch'},
+    rule='TODO', level_text='TODO', level_note='TODO',
+)
+PROPS['C13'] = dict(
+    id='C13', domains=['writer'],
+    n=dict(quick=dict(writer=600), thorough=dict(writer=30000)),
+    theorems=[('Properties.C13', [])],
+    kinds={'panic', 'warcinfo-rule', 'fit-rule', 'bad-name', 'open-file-left', 'callback-args', 'unreadable-file'},
+    rule='TODO', level_text='TODO', level_note='TODO',
+)
